@@ -69,7 +69,12 @@ def alphabet(keys):
     ops.append(('extend', [(keys[1], 8), (keys[0], 9)], True))
     ops.append(('extend', [(keys[-1], 8), (keys[0], 9), (MISSING, 3)], False))
     ops.append(('extend', [(keys[0], 8), (keys[1], -1), (keys[2], 3)], True))
+    # the pair list itself repeats a key (first occurrence wins and the repeat is rejected under replace=False; last wins under replace=True)
+    ops.append(('extend', [(keys[0], 1), (keys[1], 2), (keys[0], 3), (keys[2], 4)], False))
+    ops.append(('extend', [(keys[0], 1), (keys[1], 2), (keys[0], 3), (keys[2], 4)], True))
+    ops.append(('extend', [(keys[1], 5), (keys[1], 6)], False))
     ops.append(('update', [(keys[-1], 1), (keys[0], 2)]))
+    ops.append(('update', [(keys[1], 1), (keys[1], 2)]))
     return ops
 
 
